@@ -205,6 +205,14 @@ pub fn judge_recv(case: &RecvCase, o: &RecvOutcome) -> Vec<(String, String)> {
                     diffs.push(("path", want.clone(), got));
                 }
             }
+            if let Some(want) = sent(b":protocol") {
+                if crate::scen::PROTOCOLS.iter().any(|(n, _)| n.as_bytes() == &want[..]) {
+                    let got = m.protocol.unwrap_or("(none)");
+                    if got.as_bytes() != &want[..] {
+                        diffs.push(("protocol", want.clone(), got.as_bytes().to_vec()));
+                    }
+                }
+            }
             for (what, want, got) in diffs {
                 out.push((
                     format!("C12:recv:{slot}:delivered-{what}-differs-from-sent"),
@@ -252,6 +260,9 @@ fn recv_cases(thorough: bool) -> Vec<RecvCase> {
     let paths: Vec<Vec<Field>> = vec![vec![], vec![f(b":path", b"/")], vec![f(b":path", b"/ x")], vec![f(b":path", b"/caf\xe9")], vec![f(b":path", b"/caf\xc3\xa9?q=\xe2\x82\xac")], vec![f(b":path", b"/p?q=\xff")]];
     let statuses: Vec<Vec<Field>> = vec![vec![], vec![f(b":status", b"200")], vec![f(b":status", b"20")], vec![f(b":status", b"abc")]];
     let protos: Vec<Vec<Field>> = vec![vec![], vec![f(b":protocol", b"webtransport")], vec![f(b":protocol", b"nope")]];
+    // further alternatives, crossed with a reduced grid below
+    let protos_ext: Vec<Vec<Field>> = vec![vec![f(b":protocol", b"connect-udp")], vec![f(b":protocol", b"connect-ip")], vec![f(b":protocol", b"websocket")], vec![f(b":protocol", b"WebTransport")]];
+    let paths_ext: Vec<Vec<Field>> = vec![vec![f(b":path", b"/p\n")], vec![f(b":path", b"/p\r")], vec![f(b":path", b" /p")]];
     let hosts: Vec<Vec<Field>> = vec![vec![], vec![f(b"host", b"a.example")], vec![f(b"host", b"b.example")], vec![f(b"host", b"")], vec![f(b"host", b"A.EXAMPLE")]];
     let unknowns: Vec<Vec<Field>> = vec![vec![], vec![f(b":x", b"1")]];
     let names: [&[u8]; 6] = [b"ok", b"Upper", b"", b"sp ace", b"ctl\x01", b"a:b"];
@@ -261,6 +272,11 @@ fn recv_cases(thorough: bool) -> Vec<RecvCase> {
         for v in values {
             regulars.push(vec![f(n, v)]);
         }
+    }
+    // forbidden bytes at the edges of a value (where a trimming step would hide them), and blanks there
+    let edge_values: [&[u8]; 9] = [b"v\r", b"v\n", b"\rv", b"\nv", b"v\r\n", b"\0v", b"v\0", b" v", b"v\t"];
+    for v in edge_values {
+        regulars.push(vec![f(b"ok", v)]);
     }
     let mut out = Vec::new();
     // requests: the full product
@@ -291,6 +307,29 @@ fn recv_cases(thorough: bool) -> Vec<RecvCase> {
                                 }
                             }
                         }
+                    }
+                }
+            }
+        }
+    }
+    // the further :protocol and :path alternatives x method x authority x Host x every regular field
+    let connect: Vec<Field> = vec![f(b":method", b"CONNECT")];
+    for (ext, is_proto) in protos_ext.iter().map(|e| (e, true)).chain(paths_ext.iter().map(|e| (e, false))) {
+        for m in methods.iter().chain(std::iter::once(&connect)) {
+            for a in &auths {
+                for h in &hosts {
+                    for r in &regulars {
+                        let mut fields = Vec::new();
+                        fields.extend(m.iter().cloned());
+                        fields.extend(schemes[1].iter().cloned());
+                        fields.extend(a.iter().cloned());
+                        if is_proto {
+                            fields.extend(paths[1].iter().cloned());
+                        }
+                        fields.extend(ext.iter().cloned());
+                        fields.extend(h.iter().cloned());
+                        fields.extend(r.iter().cloned());
+                        out.push(RecvCase { slot: Slot::Request, fields });
                     }
                 }
             }
@@ -339,6 +378,8 @@ fn recv_cases(thorough: bool) -> Vec<RecvCase> {
 pub struct SendCase {
     pub method: &'static str,
     pub protocol: bool,
+    /// which of the four Protocol constants (index into scen::PROTOCOLS) when `protocol`
+    pub proto: usize,
     pub target: &'static str,
     pub host_header: Option<&'static str>,
     pub headers: usize,
@@ -395,7 +436,7 @@ pub fn send_run(c: &SendCase) -> SendOutcome {
                 req.headers_mut().append(n.clone(), v.clone());
             }
             if c2.protocol {
-                req.extensions_mut().insert(Protocol::WEB_TRANSPORT);
+                req.extensions_mut().insert(crate::scen::PROTOCOLS[c2.proto].1);
             }
             let r = async {
                 let mut s = sr.send_request(req).await?;
@@ -542,7 +583,7 @@ pub fn judge_send(c: &SendCase, o: &SendOutcome) -> Vec<(String, String)> {
                     }
                 }
             }
-            if c.protocol && get(b":protocol") != Some(b"webtransport".to_vec()) {
+            if c.protocol && get(b":protocol") != Some(crate::scen::PROTOCOLS[c.proto].0.as_bytes().to_vec()) {
                 out.push((format!("C12:send:{role}:protocol-wrong"), format!("{ctx}: [{}]", fields_str(&fields))));
             }
             for (n, _) in &pseudos {
@@ -582,24 +623,24 @@ fn send_cases() -> Vec<SendCase> {
         ("/x/y?z", Some("h.example")),
         ("https://a.example:8443/a%20b", None),
     ];
-    for (method, protocol) in [("GET", false), ("POST", false), ("OPTIONS", false), ("CONNECT", false), ("CONNECT", true)] {
+    for (method, protocol, proto) in [("GET", false, 0), ("POST", false, 0), ("OPTIONS", false, 0), ("CONNECT", false, 0), ("CONNECT", true, 0), ("CONNECT", true, 1), ("CONNECT", true, 2), ("CONNECT", true, 3)] {
         for (t, host) in &targets {
             for h in 0..header_sets().len() {
                 for trailers in [false, true] {
                     if trailers && h % 2 == 1 {
                         continue;
                     }
-                    out.push(SendCase { method, protocol, target: t, host_header: *host, headers: h, status: 0, response: false, trailers });
+                    out.push(SendCase { method, protocol, proto, target: t, host_header: *host, headers: h, status: 0, response: false, trailers });
                 }
             }
         }
     }
-    out.push(SendCase { method: "CONNECT", protocol: false, target: "a.example:443", host_header: None, headers: 0, status: 0, response: false, trailers: false });
-    out.push(SendCase { method: "OPTIONS", protocol: false, target: "*", host_header: Some("a.example"), headers: 3, status: 0, response: false, trailers: false });
+    out.push(SendCase { method: "CONNECT", protocol: false, proto: 0, target: "a.example:443", host_header: None, headers: 0, status: 0, response: false, trailers: false });
+    out.push(SendCase { method: "OPTIONS", protocol: false, proto: 0, target: "*", host_header: Some("a.example"), headers: 3, status: 0, response: false, trailers: false });
     for status in [200u16, 204, 404, 599, 100] {
         for h in 0..header_sets().len() {
             for trailers in [false, true] {
-                out.push(SendCase { method: "GET", protocol: false, target: "/", host_header: None, headers: h, status, response: true, trailers });
+                out.push(SendCase { method: "GET", protocol: false, proto: 0, target: "/", host_header: None, headers: h, status, response: true, trailers });
             }
         }
     }
@@ -612,7 +653,7 @@ pub fn run(args: &Args) -> i32 {
     let _ = Tier::Thorough;
     let mut rep = Report::new("C12", args.tier, args.seed, "exploration");
     rep.exhaustive = true;
-    rep.rule = "receive: product of per-slot alternatives - :method {absent, GET, 'G T', twice} x :scheme {absent, https, '1://'} x :authority {absent, a.example, '', 'a b', A.example} x :path {absent, '/', '/ x', '/caf\\xe9' (not UTF-8), a path and query with well-formed non-ASCII UTF-8, '/p?q=\\xff'} x :status {absent, 200, '20', 'abc'} x :protocol {absent, webtransport, nope} x Host {absent, same, different, '', differing from :authority only in letter case} x undefined ':x' {absent, present} x one regular field over names {ok, Upper, '', 'sp ace', 'ctl\\x01', 'a:b'} x values {v, '', a\\rb, a\\nb, a\\0b, \\x80} (full cross with the reduced pseudo grid, 4 representative regular fields with the full one), as request; responses over :status x leaked request pseudo fields x ':x' x regular; request and response trailers over pairs of regular fields x pseudo leakage. Sections are reference-encoded with literal representations and injected by a scripted peer into a real server / client over simnet. send: 5 method kinds x 6 targets x 7 header sets x trailers, 5 statuses x 7 header sets x trailers through the API, HEADERS frames decoded by refimpl. Oracle refimpl::fields. Non-trivial = sections with at least 2 fields.".into();
+    rep.rule = "receive: product of per-slot alternatives - :method {absent, GET, 'G T', twice} x :scheme {absent, https, '1://'} x :authority {absent, a.example, '', 'a b', A.example} x :path {absent, '/', '/ x', '/caf\\xe9' (not UTF-8), a path and query with well-formed non-ASCII UTF-8, '/p?q=\\xff'} x :status {absent, 200, '20', 'abc'} x :protocol {absent, webtransport, nope} (and connect-udp, connect-ip, websocket, 'WebTransport' and the paths '/p\\n', '/p\\r', ' /p' crossed with method incl. CONNECT x authority x Host x every regular field) x Host {absent, same, different, '', differing from :authority only in letter case} x undefined ':x' {absent, present} x one regular field over names {ok, Upper, '', 'sp ace', 'ctl\\x01', 'a:b'} x values {v, '', a\\rb, a\\nb, a\\0b, \\x80; and for the name 'ok' CR / LF / CRLF / NUL / SP / HTAB as the first or last byte} (full cross with the reduced pseudo grid, 4 representative regular fields with the full one), as request; responses over :status x leaked request pseudo fields x ':x' x regular; request and response trailers over pairs of regular fields x pseudo leakage. Sections are reference-encoded with literal representations and injected by a scripted peer into a real server / client over simnet. send: 8 method kinds (extended CONNECT with each of the four Protocol constants) x 6 targets x 7 header sets x trailers, 5 statuses x 7 header sets x trailers through the API, HEADERS frames decoded by refimpl. Oracle refimpl::fields. Non-trivial = sections with at least 2 fields.".into();
     rep.assumptions = vec![
         "the predicate is exactly the property's list (three-valued); not demanded: rejecting pseudo-after-regular, repeated pseudo fields, :status in a request, pseudo fields in trailers, unknown :protocol tokens; nor that every well-formed section is accepted (DESIGN.md 7)".into(),
         "refimpl::qpack literal encoder carries arbitrary bytes; refimpl::fields is unit-tested".into(),
